@@ -286,12 +286,16 @@ func run(cfg runConfig) (*runResult, error) {
 			ok, detail := leanCheck(cfg.specDir)
 			if ok {
 				o := &Obligation{Name: "lemma." + n, Kind: "lemma", Func: "lemma", Props: cfg.props, Goal: tTrue,
-					Text:   "bridge lemma " + n + " = theorem Verif." + strings.TrimPrefix(lm.Proof, "lean:") + " of spec/Lemmas.lean (instance m = modulus, r = class of 2^256)",
+					Text:   "lemma " + n + " = theorem Verif." + strings.TrimPrefix(lm.Proof, "lean:") + " of spec/Lemmas.lean, stated for an arbitrary modulus (prime where the theorem says so) and instantiated at P / N (fm_*: r = class of 2^256); the primality of the literals P and N stays an assumption",
 					Result: &SolveResult{Status: "unsat", Solver: "lean4-mathlib", Backend: "lean4-mathlib", Output: detail}}
 				e.obls = append(e.obls, o)
 				continue
 			}
 			res.assumed = append(res.assumed, fmt.Sprintf("lemma %s (%s; Lean check did not succeed: %s)", n, lm.Proof, trunc(detail, 200)))
+			continue
+		}
+		if strings.HasPrefix(lm.Proof, "lean:") {
+			res.assumed = append(res.assumed, fmt.Sprintf("lemma %s (assumed in the quick tier; it is theorem Verif.%s of spec/Lemmas.lean, checked by Lean 4 / Mathlib in the thorough tier)", n, strings.TrimPrefix(lm.Proof, "lean:")))
 			continue
 		}
 		if lemmaIsAssumed(lm) {
